@@ -72,7 +72,7 @@ def replay_case(case):
 
     base = {"formula": case["formula"], "t": case["t"], "u": case["u"], "sel": case["sel"]}
     Tdf = matlib.gamma_frame(case["train"])
-    Udf = matlib.gamma_frame(case["follow"])
+    Udf = matlib.gamma_frame(case["follow"], index_kind=["default", "unsorted", "strings"][(case["t"] + case["u"] + len(case["formula"])) % 3])
     bad = []
     try:
         fit = model_matrix(case["formula"], Tdf, context={})
@@ -96,7 +96,9 @@ def replay_case(case):
                 bad += judge(case["whole"], reuse(s, Udf, path), b, "")
                 n += 1
             else:
-                sub = Udf.iloc[[i - 1 for i in case["sel"]]].reset_index(drop=True)
+                sub = Udf.iloc[[i - 1 for i in case["sel"]]]      # keeps the (possibly repeated, unordered) row labels of the selection
+                if (len(case["sel"]) + case["u"]) % 2:
+                    sub = sub.reset_index(drop=True)
                 bad += judge(case["picked"], reuse(s, sub, path), b, "row-selection:")
                 n += 1
     if repr(sorted((k, repr(v)) for k, v in spec.transform_state.items())) + repr(spec.column_names) != state_before:
